@@ -161,7 +161,21 @@ impl Display for Formatted<'_, BinOp> {
                 }
                 (op, v) => (op, v.clone()),
             };
-            self.value.a.format(self.format).fmt(out)?;
+            match &self.value.a {
+                // A sum as the left operand of a product needs its parens.
+                Value::BinOp(op2)
+                    if matches!(op2.op, Plus | Minus)
+                        && matches!(
+                            op,
+                            Operator::Multiply | Div | Operator::Modulo
+                        ) =>
+                {
+                    out.write_char('(')?;
+                    self.value.a.format(self.format).fmt(out)?;
+                    out.write_char(')')?;
+                }
+                a => a.format(self.format).fmt(out)?,
+            }
             if self.value.s1 {
                 out.write_char(' ')?;
             }
